@@ -107,7 +107,7 @@ type MapRow struct {
 
 // Chain is a whole call chain ending in a finisher (or, for sub-queries, in none).
 type Chain struct {
-	Kind string `json:"kind"` // query update delete create raw exec
+	Kind string `json:"kind"` // query update delete create save firstor raw exec
 	// Base: "item" | "owner" | "tag" = Model(&X{}); "t:items" … = Table(name);
 	// "sub" = Table("(?) AS t", Sub)
 	Base     string `json:"base"`
@@ -142,6 +142,18 @@ type Chain struct {
 	Rows     []Rec     `json:"rows,omitempty"`
 	MapRows  []MapRow  `json:"maprows,omitempty"`
 	Conflict *Conflict `json:"conflict,omitempty"`
+
+	// Batch: "" | "inbatches" (CreateInBatches(&slice, n)) | "session"
+	// (Session{CreateBatchSize: n}.Create(&slice)) | "config" (Config.CreateBatchSize = n;
+	// the check opens the handle with it, see ConfigBatchSize). Only with CrKind "slice".
+	Batch     string `json:"batch,omitempty"`
+	BatchSize int    `json:"batchsize,omitempty"`
+	// SkipHooks: the chain starts with Session(&Session{SkipHooks: true})
+	SkipHooks bool `json:"skiphooks,omitempty"`
+	// Kind "save": Save(&Rows[0]) (CrKind "struct") or Save(&Rows) (CrKind "slice").
+	// Kind "firstor": Fin "firstorinit" | "firstorcreate" with Rows[0] as the struct
+	// condition (passed through Where, or inline when InlineCond).
+	InlineCond bool `json:"inlinecond,omitempty"`
 
 	DelRec *Rec `json:"delrec,omitempty"` // Delete(&X{ID: n})
 
@@ -239,6 +251,14 @@ func (r Rec) String() string {
 	return b.String()
 }
 
+func rowsString(rows []Rec) string {
+	parts := make([]string, len(rows))
+	for i, r := range rows {
+		parts[i] = r.String()
+	}
+	return "&[]{" + strings.Join(parts, ", ") + "}"
+}
+
 func kvString(keys []string, vals []Arg) string {
 	parts := make([]string, len(keys))
 	for i := range keys {
@@ -283,8 +303,11 @@ func condsString(cs []Cond) string {
 func (c *Chain) String() string {
 	var b strings.Builder
 	b.WriteString("db")
+	if c.SkipHooks {
+		b.WriteString(".Session(SkipHooks)")
+	}
 	switch {
-	case c.Kind == "raw" || c.Kind == "exec":
+	case c.Kind == "raw" || c.Kind == "exec" || c.Kind == "save" || c.Kind == "firstor":
 	case c.Base == "sub":
 		b.WriteString(".Table(\"(?) AS t\", sub{" + c.Sub.String() + "})")
 	case strings.HasPrefix(c.Base, "t:"):
@@ -399,11 +422,17 @@ func (c *Chain) String() string {
 		case "struct":
 			b.WriteString(".Create(&" + c.Rows[0].String() + ")")
 		case "slice":
-			parts := make([]string, len(c.Rows))
-			for i, r := range c.Rows {
-				parts[i] = r.String()
+			rows := rowsString(c.Rows)
+			switch c.Batch {
+			case "inbatches":
+				fmt.Fprintf(&b, ".CreateInBatches(%s, %d)", rows, c.BatchSize)
+			case "session":
+				fmt.Fprintf(&b, ".Session(CreateBatchSize: %d).Create(%s)", c.BatchSize, rows)
+			case "config":
+				fmt.Fprintf(&b, "[Config.CreateBatchSize: %d].Create(%s)", c.BatchSize, rows)
+			default:
+				b.WriteString(".Create(" + rows + ")")
 			}
-			b.WriteString(".Create(&[]{" + strings.Join(parts, ", ") + "})")
 		case "map":
 			b.WriteString(".Create(" + kvString(c.MapRows[0].Keys, c.MapRows[0].Vals) + ")")
 		default:
@@ -412,6 +441,19 @@ func (c *Chain) String() string {
 				parts[i] = kvString(r.Keys, r.Vals)
 			}
 			b.WriteString(".Create([]map{" + strings.Join(parts, ", ") + "})")
+		}
+	case "save":
+		if c.CrKind == "struct" {
+			b.WriteString(".Save(&" + c.Rows[0].String() + ")")
+		} else {
+			b.WriteString(".Save(" + rowsString(c.Rows) + ")")
+		}
+	case "firstor":
+		fn := map[string]string{"firstorinit": "FirstOrInit", "firstorcreate": "FirstOrCreate"}[c.Fin]
+		if c.InlineCond {
+			b.WriteString("." + fn + "(&" + c.Rows[0].Table + "{}, " + c.Rows[0].String() + ")")
+		} else {
+			b.WriteString(".Where(" + c.Rows[0].String() + ")." + fn + "(&" + c.Rows[0].Table + "{})")
 		}
 	case "raw":
 		b.WriteString(".Raw(" + c.Raw.String() + ")." + strings.Title(c.Fin) + "(dest)")
